@@ -107,6 +107,20 @@ quill::ManualBackendWorker* g_mbw = nullptr;
 quill::detail::BackendWorker* g_bw = nullptr;
 quill::Logger* g_lg[2] = {nullptr, nullptr};
 quill::Logger* g_lg_bt = nullptr; // same sinks, backtrace initialised and never flushed: its statements are stored, not written
+quill::Logger* g_lg_err = nullptr; // a logger with a sink of its own that records nothing: target of the failing disturber
+long g_expected_format_errors = 0;
+// a named-argument statement whose SECOND value cannot be formatted (:d for a string): the first value and a separator
+// are produced before the failure. quill reports it and writes an error text; the NEXT named-argument statement must be
+// unaffected
+constexpr quill::MacroMetadata kFailNamedMd{"named_err.cpp:9", "err_fn", "failing {first} then {second:d} end", nullptr,
+                                            quill::LogLevel::Info, quill::MacroMetadata::Event::Log};
+struct NullSink final : quill::Sink
+{
+  void write_log(quill::MacroMetadata const*, uint64_t, std::string_view, std::string_view, std::string const&, std::string_view, quill::LogLevel,
+                 std::string_view, std::string_view, std::vector<std::pair<std::string, std::string>> const*, std::string_view,
+                 std::string_view) override {}
+  void flush_sink() override {}
+};
 // a named-argument statement at backtrace level: the backend formats it, fills the named args of the (reused) transit
 // event slot and moves a COPY into the backtrace storage -- nothing may be left behind in the slot
 constexpr quill::MacroMetadata kBtNamedMd{"named_bt.cpp:7", "bt_fn", "bt {host} port {port} try {attempt}", nullptr,
@@ -771,10 +785,20 @@ std::string read_json_file_and_truncate()
 }
 void reset_case_state()
 {
+  // a fixed, well-formed named-argument statement through the null-sink logger first: whatever backend-side scratch state
+  // the LAST statement of the previous case may have left behind is absorbed here, so that a case is a pure function of
+  // its own choices (state left by a statement of THIS case is still seen by the statements after it)
+  if (g_lg_err)
+  {
+    static constexpr quill::MacroMetadata kPrologueMd{"named_err.cpp:3", "err_fn", "prologue {p} {q}", nullptr, quill::LogLevel::Info,
+                                                      quill::MacroMetadata::Event::Log};
+    g_lg_err->log_statement<false, false>(quill::LogLevel::None, &kPrologueMd, 1, 2);
+  }
   drain_and_flush();
   (void)read_json_file_and_truncate();
   g_recs.clear();
   g_notifier_msgs.clear();
+  g_expected_format_errors = 0;
   g_bw->_named_args_templates.clear();
   // fresh TransitEvent objects for every case (what a new thread would get): nothing a previous case left in a
   // reused TransitEvent can influence this one, so a failing case replays from a fresh process
@@ -981,6 +1005,18 @@ std::string show_pairs(std::vector<std::pair<std::string, std::string>> const& v
 // compares what the two sinks saw with the expectations; returns the first complaint or ""
 std::string compare_all(std::vector<Expect> const& exps, std::string const& json, Report& r, bool& any_json_parsed)
 {
+  {
+    // the failing disturbers are reported and nothing else is
+    long expected_seen = 0;
+    for (auto it = g_notifier_msgs.begin(); it != g_notifier_msgs.end();)
+    {
+      if (it->find("failing {first} then {second:d} end") != std::string::npos) { ++expected_seen; it = g_notifier_msgs.erase(it); }
+      else ++it;
+    }
+    if (expected_seen < g_expected_format_errors)
+      return std::to_string(g_expected_format_errors) + " statements that cannot be formatted were logged, the error notifier reported " +
+        std::to_string(expected_seen) + " of them";
+  }
   if (!g_notifier_msgs.empty())
     return "backend error notifier called " + std::to_string(g_notifier_msgs.size()) + "x, first: " + esc(g_notifier_msgs[0], 300);
   if (g_recs.size() != exps.size())
@@ -1163,6 +1199,8 @@ void harness_init(Params const& p)
     g_lg_bt = quill::Frontend::create_or_get_logger("named_bt", {g_rec_sink, g_json_sink}, quill::PatternFormatterOptions{},
                                                     quill::ClockSourceType::User, &g_clock);
     g_lg_bt->init_backtrace(2, quill::LogLevel::None); // never flushed automatically
+    g_lg_err = quill::Frontend::create_or_get_logger("named_err", quill::Frontend::create_or_get_sink<NullSink>("named_null"),
+                                                     quill::PatternFormatterOptions{}, quill::ClockSourceType::User, &g_clock);
     g_json_fd = open(g_json_path.c_str(), O_RDWR);
     if (g_json_fd < 0) g_init_error = "cannot open " + g_json_path + " for reading back";
   }
@@ -1207,6 +1245,16 @@ void run_case(Choices& c, Report& r)
       g_lg_bt->log_statement<false, false>(quill::LogLevel::None, &kBtNamedMd, std::string{"db-1"}, 5432, 3u);
       r.label("named_backtrace_statement_between");
       if (k < 10) r.line("   (named-argument LOG_BACKTRACE through logger named_bt: stored, never written)");
+      ++pending;
+    }
+    if (c.pick(8) == 7)
+    {
+      // disturber: a named-argument statement that fails to format part-way (reported once through the notifier)
+      g_clock.t = 1000000000000000000ull + static_cast<uint64_t>(c.range(0, 2999999999999999999ll));
+      g_lg_err->log_statement<false, false>(quill::LogLevel::None, &kFailNamedMd, std::string{"b.csv"}, std::string{"7001"});
+      ++g_expected_format_errors;
+      r.label("failing_named_statement_between");
+      if (k < 10) r.line("   (named-argument statement whose second value cannot be formatted, through logger named_err)");
       ++pending;
     }
     size_t kind = c.weighted({12, 1, 1}); // 0 generated template, 1 LOGJ_ call site, 2 rewrite a slot in place first
